@@ -244,7 +244,9 @@ func (m *Type) ResetSP() {
 
 func (m *Type) growStack(size int) {
 	if m.sp+size >= len(m.stack) {
+		old := m.stack
 		m.stack = append(m.stack, make([]value.Type, max(minStackSize, size))...)
+		verifGrown(old, m.stack)
 	}
 }
 
